@@ -341,3 +341,95 @@ theorem C18_generate_arg_is_stdin (E : Asm.Engine) (cfg : Asm.Config) (o1 o2 : P
   simp only [hgo]
 
 end Crs.Props
+
+namespace Crs.Props
+open Crs Crs.Cli
+
+/-! ### what is printed and the status belong together (format, renumber-tests) -/
+
+theorem renumberWalk_status (check g : Bool) (t : Tree) :
+    (renumberAll check t).ok = !(renumberWalkOut check g t).2 := by
+  induction t with
+  | nil => rfl
+  | cons x rest ih =>
+    obtain ⟨p, b⟩ := x
+    unfold renumberAll renumberWalkOut
+    cases hid : renumberId? p with
+    | none => simpa using ih
+    | some id =>
+      simp only [renumberOne, ih]
+      by_cases hch : (Crs.Renumber.processYaml id b == b) = true
+      · have hne : (Crs.Renumber.processYaml id b != b) = false := by simp [bne, hch]
+        simp [hch, hne]
+      · simp only [Bool.not_eq_true] at hch
+        have hne : (Crs.Renumber.processYaml id b != b) = true := by simp [bne, hch]
+        cases check <;> simp [hch, hne]
+
+/-- **C16 (renumber-tests --all in GitHub mode is loud on standard output).** When the run fails, the last thing printed
+    is the `::error::` line that tells CI what to do. -/
+theorem C16_renumber_github_notice (check : Bool) (t : Tree) (h : (renumberAll check t).ok = false) :
+    ∃ o, renumberAllOut check true t = o ++ renumberAllNotice := by
+  have hs := renumberWalk_status check true t
+  rw [h] at hs
+  unfold renumberAllOut
+  generalize renumberWalkOut check true t = w at hs
+  obtain ⟨o, f⟩ := w
+  have hf : f = true := by
+    cases f
+    · exact absurd hs (by simp)
+    · rfl
+  subst hf
+  exact ⟨o, rfl⟩
+
+/-- … and a run that succeeds prints no `::error::` line: its output is the warnings of the walk alone -/
+theorem C16_renumber_github_quiet (check g : Bool) (t : Tree) (h : (renumberAll check t).ok = true) :
+    renumberAllOut check g t = (renumberWalkOut check g t).1 := by
+  have hs := renumberWalk_status check g t
+  rw [h] at hs
+  unfold renumberAllOut
+  generalize renumberWalkOut check g t = w at hs
+  obtain ⟨o, f⟩ := w
+  have hf : f = false := by
+    cases f
+    · rfl
+    · exact absurd hs (by simp)
+  subst hf
+  rfl
+
+theorem formatWalk_status (check g : Bool) (lint : Bytes → Bool) (t : Tree) :
+    (formatAll check lint t).ok = !(formatWalkOut check g lint t).2.1 := by
+  induction t with
+  | nil => rfl
+  | cons x rest ih =>
+    obtain ⟨p, b⟩ := x
+    unfold formatAll formatWalkOut
+    by_cases hp : isFormatTarget p = true
+    · simp only [hp, if_true]
+      by_cases hq : parseable b = true
+      · simp only [hq, Bool.not_true, Bool.false_eq_true, if_false, ih]
+        cases (formatOne check (lint p) b).2 <;> simp
+      · simp only [Bool.not_eq_true] at hq
+        simp [hq]
+    · simp only [hp, Bool.false_eq_true, if_false]
+      exact ih
+
+/-- **C16 (format --all in GitHub mode is loud on standard output).** When the run fails and was not ended by a parser
+    panic (which ends the process with its own message on stderr), the last thing printed is the `::error::` line. -/
+theorem C16_format_github_notice (check : Bool) (lint : Bytes → Bool) (t : Tree)
+    (h : (formatAll check lint t).ok = false) (hp : (formatWalkOut check true lint t).2.2 = false) :
+    ∃ o, formatAllOut check true lint t = o ++ formatAllNotice := by
+  have hs := formatWalk_status check true lint t
+  rw [h] at hs
+  unfold formatAllOut
+  generalize formatWalkOut check true lint t = w at hs hp
+  obtain ⟨o, f, e⟩ := w
+  simp only at hp hs
+  have hf : f = true := by
+    cases f
+    · exact absurd hs (by simp)
+    · rfl
+  subst hf
+  subst hp
+  exact ⟨o, rfl⟩
+
+end Crs.Props
